@@ -118,7 +118,10 @@ func TestPublisherStacks(t *testing.T) {
 				case 1:
 					cfg.DefaultDelayGenerator = func(p delay.DefaultDelayGeneratorParams) (delay.Delay, error) { genCalls++; return genDelay, nil }
 				case 2:
-					cfg.DefaultDelayGenerator = func(p delay.DefaultDelayGeneratorParams) (delay.Delay, error) { genCalls++; return delay.Delay{}, errGen }
+					cfg.DefaultDelayGenerator = func(p delay.DefaultDelayGeneratorParams) (delay.Delay, error) {
+						genCalls++
+						return delay.Delay{}, errGen
+					}
 				}
 				pub, err = delay.NewPublisher(pub, cfg)
 			case "metrics":
@@ -423,6 +426,14 @@ func TestSubscriberStacks(t *testing.T) {
 			layers = append(layers, rapid.SampledFrom([]string{"transform", "metrics", "metrics"}).Draw(t, "layer"))
 		}
 		inner := lib.NewScriptSub("")
+		firstCloseFails := rapid.Bool().Draw(t, "firstInnerCloseFails")
+		errClose := stderrors.New("inner close failed")
+		inner.CloseErr = func(call int) error {
+			if firstCloseFails && call == 1 {
+				return errClose
+			}
+			return nil
+		}
 		reg := prometheus.NewRegistry()
 		b := metrics.NewPrometheusMetricsBuilder(reg, "", "")
 		var sub message.Subscriber = inner
@@ -488,7 +499,10 @@ func TestSubscriberStacks(t *testing.T) {
 			}
 		}
 		if nMetrics > 0 {
-			lib.WaitUntil(lib.Live, func() bool { a, n := counterCounts(reg, "subscriber_messages_received_total"); return a+n >= wantA+wantN })
+			lib.WaitUntil(lib.Live, func() bool {
+				a, n := counterCounts(reg, "subscriber_messages_received_total")
+				return a+n >= wantA+wantN
+			})
 			time.Sleep(3 * time.Millisecond)
 			a, nn := counterCounts(reg, "subscriber_messages_received_total")
 			if a != wantA || nn != wantN {
@@ -500,14 +514,23 @@ func TestSubscriberStacks(t *testing.T) {
 		go func() { done <- sub.Close() }()
 		select {
 		case err := <-done:
-			if err != nil {
-				t.Fatalf("violation: Close returned %v", err)
+			if firstCloseFails != (err != nil) || (err != nil && err != errClose && !stderrors.Is(err, errClose)) {
+				t.Fatalf("violation: Close returned %v, the inner subscriber's Close returned error=%v", err, firstCloseFails)
 			}
 		case <-time.After(lib.Live):
 			t.Fatalf("violation: Close of the decorated subscriber did not return")
 		}
 		if inner.CloseCalls() != 1 {
 			t.Fatalf("violation: inner subscriber closed %d times for one outer Close", inner.CloseCalls())
+		}
+		// a second Close passes through as well (e.g. a retry after a failed Close)
+		if rapid.Bool().Draw(t, "closeAgain") {
+			if err := sub.Close(); err != nil {
+				t.Fatalf("violation: second Close returned %v", err)
+			}
+			if inner.CloseCalls() != 2 {
+				t.Fatalf("violation: the second outer Close did not reach the inner subscriber (inner Close calls: %d)", inner.CloseCalls())
+			}
 		}
 		select {
 		case _, ok := <-out:
@@ -532,10 +555,10 @@ func TestRouterMetrics(t *testing.T) {
 	rapid.Check(t, func(t *rapid.T) {
 		twice := rapid.Bool().Draw(t, "decoratorsAppliedTwice")
 		k := rapid.IntRange(1, 6).Draw(t, "messages")
-		type spec struct{ Outcome, Outs int } // 0 success, 1 error, 2 panic, 3 publish failure
+		type spec struct{ Outcome, Outs int } // 0 success, 1 error, 2 panic, 3 publish failure, 4 pass the consumed message through
 		specs := make([]spec, k)
 		for i := range specs {
-			specs[i] = spec{Outcome: rapid.SampledFrom([]int{0, 0, 1, 2, 3}).Draw(t, "outcome"), Outs: rapid.IntRange(0, 2).Draw(t, "outputs")}
+			specs[i] = spec{Outcome: rapid.SampledFrom([]int{0, 0, 1, 2, 3, 4}).Draw(t, "outcome"), Outs: rapid.IntRange(0, 2).Draw(t, "outputs")}
 			if specs[i].Outcome == 3 && specs[i].Outs == 0 {
 				specs[i].Outs = 1
 			}
@@ -555,7 +578,9 @@ func TestRouterMetrics(t *testing.T) {
 		pub := lib.NewScriptPub("")
 		pub.OnPublish = func(pc *lib.PubCall) error {
 			var idx int
-			fmt.Sscanf(pc.Snaps[0].Meta["src"], "%d", &idx)
+			if _, err := fmt.Sscanf(pc.Snaps[0].Meta["src"], "%d", &idx); err != nil {
+				fmt.Sscanf(pc.Snaps[0].UUID, "%d", &idx) // the consumed message passed through
+			}
 			if specs[idx].Outcome == 3 {
 				return errInner
 			}
@@ -576,6 +601,9 @@ func TestRouterMetrics(t *testing.T) {
 				return nil, stderrors.New("handler error")
 			case 2:
 				panic("handler panic")
+			case 4:
+				// message.PassthroughHandler style: the consumed message object is the output
+				return []*message.Message{m}, nil
 			}
 			return outs, nil
 		})
@@ -607,6 +635,8 @@ func TestRouterMetrics(t *testing.T) {
 				if sp.Outs > 0 {
 					wantPubOK++
 				}
+			case 4:
+				wantPubOK++
 			case 1:
 				wantErr++
 			case 3:
